@@ -235,8 +235,8 @@ PROPS['C05'] = dict(
     level_note=SEARCH_NOTE + ' ' + ORACLE_ASSUMPTION,
     rule='evaluations = searches run. Non-trivial = distinct (position, limits, fault) where a fault was exercised: stop delivered before iteration 1 completed, or a poisoned table.',
     assumptions=[ORACLE_ASSUMPTION, 'the real 4M-entry table and wall-clock polling are replaced by the small table and the virtual clock'],
-    quick=dict(cases=70, shards=16, scale=4, gates={'c05:stop_before_first_iteration_completed': 150, 'c05:searches_with_poisoned_table': 200, 'c05:searchmoves': 150,
-                                                  'c05:time_limited': 200, 'c05:explosive_position': 100, 'c05:search_on_used_table': 300}, min_nontrivial=300),
+    quick=dict(cases=110, shards=16, scale=4, gates={'c05:stop_before_first_iteration_completed': 150, 'c05:searches_with_poisoned_table': 200, 'c05:searchmoves': 150,
+                                                  'c05:time_limited': 200, 'c05:explosive_position': 100, 'c05:search_on_used_table': 300, 'c05:tiny_endgame': 2000}, min_nontrivial=300),
     thorough=dict(cases=2000, shards=16, scale=4, min_nontrivial=10000),
 )
 PROPS['C08'] = dict(
@@ -273,9 +273,9 @@ PROPS['C06'] = dict(
     rule='evaluations = schedules executed. Non-trivial = distinct (park point, k, position, go form) where stop was delivered to a parked search thread or after the search had finished; race-half sessions are reported under coverage.race_half.',
     assumptions=['the hook callback runs on the search thread at the documented points (engine/verif_hooks.h)'],
     run_fn='run_c06', replay_fn='replay_c06',
-    quick=dict(cases=18, shards=16, scale=3, race_shards=4, race_cases=4, race_min_sessions=12,
+    quick=dict(cases=26, shards=16, scale=3, race_shards=4, race_cases=4, race_min_sessions=12,
                gates={'c06:stop_delivered_at_thread_start': 10, 'c06:stop_delivered_at_go_entry': 10, 'c06:stop_delivered_at_go_after_init': 10, 'c06:stop_delivered_at_go_after_reset': 10,
-                      'c06:stop_delivered_at_node_visit': 40, 'c06:stop_delivered_at_iteration_end': 10, 'c06:stop_delivered_at_before_bestmove': 5}, min_nontrivial=150),
+                      'c06:stop_delivered_at_node_visit': 40, 'c06:stop_delivered_at_iteration_end': 4, 'c06:stop_delivered_at_before_bestmove': 3, 'c06:explosive_position': 40}, min_nontrivial=150),
     thorough=dict(cases=400, shards=16, scale=3, race_shards=16, race_cases=40, race_min_sessions=400, min_nontrivial=3000),
 )
 
